@@ -84,8 +84,37 @@ class C29(Prop):
                 "From PP Require Import Model.C28 Model.C29.\nOpen Scope Q_scope.\n")
     n_cases = (260, 5000)
     design_ref = "DESIGN.md §5 C29"
-    level_text = ""
-    level_note = ""
+    level_text = (
+        "Coq theorems over an executable Q-transcription of split_intersecting_segments_2d "
+        "(bounding-box candidates, side filter with its vectorised scalar-distance quirk, "
+        "segments_2d = the C28 model, point uniquification, per-segment np.unique + sort by "
+        "distance from the start, children with the parent's tags, edge uniquification keeping "
+        "the first child per point pair).  For ARBITRARY rational segment sets and any tol, "
+        "under the decidable guard 'away from the tolerance bands' (tol>0, no zero-length "
+        "segment, every executed segments_2d call answers like its exact counterpart, points "
+        "handed to the uniquification equal or >= tol apart): C29_no_exception; "
+        "C29_children_inside_parent (both ends of every output edge on the segment it is mapped "
+        "to, same tags); C29_covering (every point of every input segment on some output edge "
+        "— induction over the chain sorted by parameter — and every point of every output edge "
+        "on its input segment); C29_no_duplicates_partial (no zero-length edge; no two edges "
+        "with the same end points in either orientation, when an intersection was found or the "
+        "input has no geometrically equal segments); C29_noncrossing_partial (edges of one "
+        "parent, and edges of two parents that segments_2d answered with one point, meet only "
+        "in a common end point).  The model is tied to /repo on every run: Coq recomputes the "
+        "pipeline on every generated segment set, checks the guard and compares the children "
+        "before uniquification (geometry, tags, order) and the final edge set (geometry, tags, "
+        "parent) with the implementation's output; the exact-rational oracle checks the full "
+        "property (inside+tags, cover, no duplicates, meet only at shared end points).")
+    level_note = (
+        "P-core.  NOT proved (oracle + tie only): non-crossing for collinear-overlap pairs and "
+        "for pairs rejected by the bounding-box/side filters (filter completeness), and "
+        "no-duplicates when no intersection point is found and the input contains equal "
+        "segments; behaviour inside the tolerance bands; that integer inputs satisfy the guard "
+        "(evaluated per case instead).  Trusted: Coq kernel + vm_compute; harness "
+        "generator/emitter; floats converted exactly to Q and compared within 1e-9*(1+|x|) in "
+        "Coq; abstractions of the model named under 'trusted' (bounding-box sweep by its result, "
+        "uniquify_point_set by greedy clustering, output point numbering not modelled).  "
+        "Depends on C28's 2-D theorem (seg2d_correct_separated).")
     technique = ("Coq proof (convex-combination / sorted-parameter induction over Q on the "
                  "transcribed splitting pipeline) + vm_compute execution correspondence")
     rule = ("sets of 2-8 integer segments in small boxes built from directed streams "
